@@ -1,7 +1,7 @@
 """C09 -- xcmp accepts or cleanly rejects every input (engines Q + I)."""
 from .. import cast, robust, flow, ivinterp
 from ..frontend import AnalysisBroken
-from ..ivinterp import Thrown, NeedSplit
+from ..ivinterp import Thrown, NeedSplit, Obj
 from ..cast import children, pos, walk, callee_of, qt, dqt
 
 # dynamic_casts in xcmp:: whose result is dereferenced without a null test, with the guard that makes them safe
@@ -100,6 +100,7 @@ def run(rep, tier):
                 nontrivial=(chr(c) in '|"\'#:<>~' or chr(c).isalnum()))
     rule_recursion(rep)
     rule_peephole_bounds(rep, idx)
+    rule_memory_info(rep, idx)
     from .. import report as _report
     from . import c14, c11
     rep.rule('R12', '"reports a diagnostic and emits nothing": output files are opened only by the designated writer, and nothing can be '
@@ -145,6 +146,103 @@ def rule_peephole_bounds(rep, idx, rid='R11'):
         ok = not bad and (thrown is None or 'out-of-range' not in thrown)
         rep.add(rid, name, ok, where, ('out-of-range access: %s %s' % (bad[:2], thrown or '')) if not ok else
                 '%d directives in, %d out, no out-of-range access' % (len(low), len(res)))
+
+
+def rule_memory_info(rep, idx, rid='R14'):
+    rep.rule(rid, 'the frame report (--memory-info) runs before the assembler rejects a program without main: on the stream the code generator '
+             'produces for a source with no procedure at all, visiting the Program node with ReportMemoryInfo raises no arithmetic fault '
+             '(division or remainder by zero) and makes no out-of-range access; also every integer division in the xcmp/hexasm code has a '
+             'divisor that is a non-zero constant or is decided by such an interpretation', floor=2)
+    from . import c08
+    from .. import xmodel
+    rec = idx.record('xcmp::ReportMemoryInfo')
+    where = pos(rec.node) + ' xcmp::ReportMemoryInfo'
+    interpreted = set()
+    name, X, low = c08.pipeline_streams(idx)[0]
+    I = X.I
+    key = 'ReportMemoryInfo:' + name
+    try:
+        st = Obj('xcmp::SymbolTable', {'symbolMap': {}}, 'st')
+        v = X.visitor('xcmp::ReportMemoryInfo', [st, ivinterp.Vec(list(low)), Obj('std::ostream', {}, 'outs')])
+        prog = Obj('xcmp::Program', {}, 'program')
+        n0 = len(I.ub)
+        X.visit_pre(v, prog)
+        X.visit_post(v, prog)
+        ub = I.ub[n0:]
+        bad = [u for u in ub if 'division' in str(u) or 'out-of-range' in str(u) or 'index' in str(u)]
+        rep.add(rid, key, not bad, where, ('on a source without procedures: %s' % bad[:2]) if bad else 'no fault on a source without procedures')
+        for m in rec.methods:
+            if m.body is not None and m.name in ('visitPre', 'visitPost') and m.params and 'Program' in qt(m.params[0]):
+                interpreted.add(m.qname + '/' + qt(m.params[0]))
+                for x in walk(m.body):
+                    interpreted.add(id(x))
+    except Thrown as e:
+        rep.add(rid, key, robust.derives_from_std_exception(idx, e.what) if isinstance(e.what, str) else True, where, 'throws %s' % (e.what,))
+    except (NeedSplit, AnalysisBroken) as e:
+        rep.undecided(rid, key, 'cannot interpret the report on the empty program: %s' % e, where)
+    # every integer division / remainder: constant non-zero divisor, or inside a function interpreted above
+    for tu in ('xcmp.cpp',):
+        ix = idx
+        for f in ix.all_funcs():
+            if f.body is None or f.node.get('isImplicit') or not f.qname.split('::')[0] in ('xcmp', 'hexasm', 'hexutil'):
+                continue
+            for x in walk(f.body):
+                if x['kind'] in ('BinaryOperator', 'CompoundAssignOperator') and x.get('opcode') in ('/', '%', '/=', '%='):
+                    t = dqt(x)
+                    if 'double' in t or 'float' in t:
+                        continue
+                    d = cast.const_int(children(x)[1], ix)
+                    k2 = 'divisor:%s:%s' % (f.qname, pos(x))
+                    if d is not None:
+                        rep.add(rid, k2, d != 0, pos(x) + ' ' + f.qname, 'constant divisor %d' % d)
+                    elif id(x) in interpreted:
+                        rep.add(rid, k2, True, pos(x) + ' ' + f.qname, 'decided by the interpretation above', nontrivial=False)
+                    else:
+                        g = _nonzero_guard(f, x)
+                        if g:
+                            rep.add(rid, k2, True, pos(x) + ' ' + f.qname, 'divisor tested non-zero at %s' % g)
+                        else:
+                            rep.undecided(rid, k2, 'divisor is neither a constant nor tested against zero on the path to the division', pos(x) + ' ' + f.qname)
+
+
+def _nonzero_guard(f, div):
+    """Position of an enclosing if / conditional whose condition compares the divisor expression (same declaration) with zero
+    (x != 0, x > 0, x, !x with the division in the else branch, x == 0 with the division in the else branch)."""
+    dv = cast.strip(children(div)[1])
+    ref = cast.decl_ref(dv) or (cast.member_ref(dv) or [None])[0]
+    if ref is None:
+        return None
+
+    def same(e):
+        e = cast.strip(e)
+        return (cast.decl_ref(e) or (cast.member_ref(e) or [None])[0]) == ref
+
+    def polarity(c):
+        c = cast.strip(c)
+        if same(c):
+            return True
+        if c['kind'] == 'UnaryOperator' and c.get('opcode') == '!' and same(children(c)[0]):
+            return False
+        if c['kind'] == 'BinaryOperator' and c.get('opcode') in ('!=', '>', '==') and len(children(c)) == 2:
+            a, b = children(c)
+            if same(a) and cast.const_int(b, None) == 0:
+                return c['opcode'] != '=='
+        return None
+    for n in walk(f.body):
+        if n['kind'] in ('IfStmt', 'ConditionalOperator'):
+            cc = children(n)
+            pol = polarity(cc[0])
+            if pol is None:
+                continue
+            branch = cc[1] if pol else (cc[2] if len(cc) > 2 else None)
+            if branch is not None and any(y is div for y in walk(branch)):
+                # the divisor must not be assigned between the test and the division (conservative: not assigned anywhere in the branch)
+                assigned = any(y['kind'] in ('BinaryOperator', 'CompoundAssignOperator', 'UnaryOperator') and
+                               (y.get('opcode', '').endswith('=') and y.get('opcode') not in ('==', '!=', '<=', '>=') or y.get('opcode') in ('++', '--'))
+                               and same(children(y)[0]) for y in walk(branch))
+                if not assigned:
+                    return pos(n)
+    return None
 
 
 def _under_found_test(f, ret):
